@@ -312,6 +312,23 @@ def check_state_reset(P, R):
     every path through the loop body (not only on the path that used what was collected)"""
     rule = "RF8-state"
     n = 0
+    # a helper that hands its own pointer parameter on to an accumulating parser accumulates into it as well
+    accum = dict(ACCUM)
+    changed = True
+    while changed:
+        changed = False
+        for t in P.tus:
+            for fn in t.funclist:
+                if getattr(fn, "body", None) is None or fn.name in accum:
+                    continue
+                for c in fn.walk():
+                    if c.get("k") == "CallExpr" and c.get("callee") in accum and len(call_args(c)) > accum[c["callee"]]:
+                        a = strip(call_args(c)[accum[c["callee"]]])
+                        if a is not None and a.get("k") == "DeclRefExpr" and a.get("dk") == "parm":
+                            idx = [i for i, p_ in enumerate(fn.params) if p_["d"] == a.get("d")]
+                            if idx:
+                                accum[fn.name] = idx[0]
+                                changed = True
     for t in P.tus:
         if t.obj.startswith(EXEMPT_OBJ):
             continue
@@ -324,8 +341,8 @@ def check_state_reset(P, R):
                 inner_decl = {v["d"] for x in walk(lp) if x.get("k") == "DeclStmt" for v in kids(x) if v.get("k") == "Var"}
                 states = {}
                 for c in walk(lp):
-                    if c.get("k") == "CallExpr" and c.get("callee") in ACCUM:
-                        a = strip(call_args(c)[ACCUM[c["callee"]]])
+                    if c.get("k") == "CallExpr" and c.get("callee") in accum and len(call_args(c)) > accum[c["callee"]]:
+                        a = strip(call_args(c)[accum[c["callee"]]])
                         if a is not None and a.get("k") == "UnaryOperator" and a.get("op") == "&":
                             v = strip(a["c"][0])
                             if v is not None and v.get("k") == "DeclRefExpr" and v.get("d") not in inner_decl:
